@@ -65,6 +65,9 @@ func (h *History) source(k int) string {
 		fmt.Fprintf(&sb, "func (o *Obj) Meth%d(a int) int {\n%s\to.N += %d\n\treturn a*1000 + %d*100 + 50 + %d\n}\n\n", i, pad(), i+1, i, k)
 	}
 	sb.WriteString("func Tag() int {\n\treturn " + fmt.Sprint(k) + "\n}\n\n")
+	// a function-valued package variable WITH an initialiser: every load re-initialises it, so after a reload both the
+	// host (Call by name, Func of the value read now) and script code reach the new literal
+	fmt.Fprintf(&sb, "var stepv = func(a int) int {\n\treturn a*1000 + 900 + %d\n}\n\nfunc CallStepv(a int) {\n\tfmt.Println(\"stepv\", stepv(a))\n}\n\n", k)
 	// entry points (their bodies are the same in every version)
 	for i := 0; i < h.NFuncs; i++ {
 		for s := 0; s < nSlots; s++ {
@@ -102,6 +105,10 @@ func genHistory(rt *rapid.T) *History {
 		arg := rx.Range(rt, "arg", 1, 9)
 		switch rx.Weighted(rt, "op", 6, 5, 5, 5, 4, 4, 4, 3, 3, 3, 2, 2, 2, 3, 3) {
 		case 13:
+			if rapid.Bool().Draw(rt, "stepv") {
+				h.Ops = append(h.Ops, Op{Op: rx.Pick(rt, "stepvvia", "stepv_call", "stepv_call", "stepv_func", "stepv_script"), Arg: arg})
+				continue
+			}
 			h.Ops = append(h.Ops, Op{Op: "fill", Arg: arg})
 			continue
 		case 14:
@@ -202,6 +209,7 @@ type model struct {
 	}
 	fills []int // arguments of the Fill calls so far
 	filledAt int // version loaded at the last Fill
+	stepvCalledAt int // version loaded when the host last called stepv by name
 }
 
 func check(h *History) (f *ev.Failure) {
@@ -289,6 +297,25 @@ func check(h *History) (f *ev.Failure) {
 		case "show":
 			call("Show")
 			want = fmt.Sprintf("state %d %d %s\n", m.counter, m.initd, m.label)
+		case "stepv_call", "stepv_func":
+			if op.Op == "stepv_call" {
+				r = vm.Call("app.stepv", 1, goat.DefaultBudget, goatInt(op.Arg))
+			} else {
+				r = vm.Func(vm.Get("app.stepv"), 1, goat.DefaultBudget, goatInt(op.Arg))
+			}
+			if !r.Failed() {
+				if len(r.Rets) != 1 || r.Rets[0].Int() != op.Arg*1000+900+m.k {
+					return fail(i, fmt.Sprintf("the host called the function variable stepv (initialised by version %d's literal): got %v, expected %d", m.k, r.RetStrings(), op.Arg*1000+900+m.k))
+				}
+			}
+			if m.stepvCalledAt > 0 && m.stepvCalledAt < m.k {
+				nontrivial = true
+				ev.R().Class("function_variable_with_initialiser_called_by_name_before_and_after_a_reload")
+			}
+			m.stepvCalledAt = m.k
+		case "stepv_script":
+			call("CallStepv", op.Arg)
+			want = fmt.Sprintf("stepv %d\n", op.Arg*1000+900+m.k)
 		case "fill":
 			call("Fill", op.Arg)
 			m.fills = append(m.fills, op.Arg)
